@@ -238,6 +238,19 @@ impl C11 {
         } else {
             rep.failed("limit_probe", None, format!("with max_concurrent_farms = {limit} and {live0} unexpired farms, {accepted} further creations were accepted (expected {expect}); {live1} unexpired farms now"), witness(ctx));
         }
+        // with the LP token filled up to the limit the owner tries to lower the limit: whatever
+        // the contract answers, no LP token may end up with more unexpired farms than configured
+        if live1 > 1 {
+            let lower = self.rng.gen_range(1..live1);
+            let out = w.apply(&fm_config_op(&owner, |p| p.max_concurrent_farms = Some(lower)));
+            let f2 = fobserve(w);
+            let live2 = f2.farms.values().filter(|x| x.lp_denom == lp && !expired(w, x, &f2.cfg, f2.time)).count() as u32;
+            if live2 > f2.cfg.max_concurrent_farms {
+                rep.failed("limit_probe", None, format!("the owner lowered max_concurrent_farms to {lower} ({}) while {live2} unexpired farms run on one LP token", out.short()), witness(json!({"limit_before": limit, "lowered_to": lower, "unexpired": live2})));
+            } else {
+                rep.held("limit_probe", hash_of(&("lower", out.is_ok())), || json!({"unexpired_farms": live2, "attempt_to_lower_the_limit_to": lower, "answer": out.short(), "limit_now": f2.cfg.max_concurrent_farms}));
+            }
+        }
         w.restore(&snap);
     }
 }
